@@ -443,17 +443,22 @@ func (w *Worktree) Reset(opts *ResetOptions) error {
 		}
 	}
 
-	// For HardReset and KeepReset, capture the current HEAD tree before
-	// resetting HEAD. resetWorktreeToTree will diff prevTree→t and apply only
-	// those changes to the worktree. Since the diff is tree-to-tree, untracked
-	// files are invisible and are never deleted — matching real git reset --hard.
+	// For KeepReset, capture the current HEAD tree before resetting HEAD.
+	// resetWorktreeToTree will diff prevTree→t and apply only those changes to
+	// the worktree. Since the diff is tree-to-tree, untracked files are
+	// invisible and are never deleted — matching real git reset --keep.
 	//
 	// If opts.fromTree is set (by Checkout), use that instead of calling
 	// headTree(). This handles the case where HEAD was already updated before
 	// Reset was called (e.g., in Checkout), ensuring we diff from the actual
 	// previous state rather than the new HEAD.
+	//
+	// HardReset does not look at the previous tree: like git reset --hard it
+	// removes what the index has and t does not (see below). What HEAD has
+	// and the index does not (rm --cached) is untracked and stays; what only
+	// the index has (a staged new file) goes.
 	var prevTree *object.Tree
-	if opts.Mode == HardReset || opts.Mode == KeepReset {
+	if opts.Mode == KeepReset {
 		if opts.fromTree != nil {
 			prevTree = opts.fromTree
 		} else {
@@ -475,8 +480,9 @@ func (w *Worktree) Reset(opts *ResetOptions) error {
 	}
 
 	var removedFiles []string
+	var dropped []*index.Entry
 	if opts.Mode == MixedReset || opts.Mode == MergeReset || opts.Mode == HardReset || opts.Mode == KeepReset {
-		if removedFiles, err = w.resetIndex(t, opts.SparseDirs, opts.Files); err != nil {
+		if removedFiles, dropped, err = w.resetIndex(t, opts.SparseDirs, opts.Files); err != nil {
 			return err
 		}
 	}
@@ -488,7 +494,10 @@ func (w *Worktree) Reset(opts *ResetOptions) error {
 	}
 
 	if opts.Mode == HardReset || opts.Mode == KeepReset {
-		if err := w.resetWorktreeToTree(cfg, prevTree, t, opts.Files); err != nil {
+		if opts.Mode == KeepReset {
+			dropped = nil
+		}
+		if err := w.resetWorktreeToTree(cfg, prevTree, t, dropped, opts.Files); err != nil {
 			return err
 		}
 	}
@@ -551,17 +560,20 @@ func (w *Worktree) Restore(o *RestoreOptions) error {
 	return ErrRestoreWorktreeOnlyNotSupported
 }
 
-func (w *Worktree) resetIndex(t *object.Tree, dirs, files []string) ([]string, error) {
+// resetIndex makes the index match t. It returns the paths whose entry was
+// changed in any way and the entries that were dropped because t does not
+// have their path.
+func (w *Worktree) resetIndex(t *object.Tree, dirs, files []string) (changed []string, dropped []*index.Entry, err error) {
 	idx, err := w.r.Storer.Index()
 	if err != nil {
-		return nil, err
+		return nil, nil, err
 	}
 
 	b := newIndexBuilder(idx)
 
 	changes, err := w.diffTreeWithStaging(t, true)
 	if err != nil {
-		return nil, err
+		return nil, nil, err
 	}
 
 	removedFiles := make([]string, 0, len(changes))
@@ -569,7 +581,7 @@ func (w *Worktree) resetIndex(t *object.Tree, dirs, files []string) ([]string, e
 	for _, ch := range changes {
 		a, err := ch.Action()
 		if err != nil {
-			return nil, err
+			return nil, nil, err
 		}
 
 		var name string
@@ -580,7 +592,7 @@ func (w *Worktree) resetIndex(t *object.Tree, dirs, files []string) ([]string, e
 			name = ch.To.String()
 			e, err = t.FindEntry(name)
 			if err != nil {
-				return nil, err
+				return nil, nil, err
 			}
 		case merkletrie.Delete:
 			name = ch.From.String()
@@ -593,9 +605,13 @@ func (w *Worktree) resetIndex(t *object.Tree, dirs, files []string) ([]string, e
 			}
 		}
 
+		old := b.entries[name]
 		b.Remove(name)
 		removedFiles = append(removedFiles, name)
 		if e == nil {
+			if old != nil {
+				dropped = append(dropped, old)
+			}
 			continue
 		}
 
@@ -612,7 +628,7 @@ func (w *Worktree) resetIndex(t *object.Tree, dirs, files []string) ([]string, e
 		idx.SkipUnless(dirs)
 	}
 
-	return removedFiles, w.setIndex(idx)
+	return removedFiles, dropped, w.setIndex(idx)
 }
 
 // inFiles checks if the given file is in the list of files. The incoming filepaths in files should be cleaned before calling this function.
@@ -751,7 +767,8 @@ func (w *Worktree) checkKeepResetConflicts(fromTree, toTree *object.Tree, sparse
 //
 //  1. Tree-to-tree diff (fromTree→toTree): remove files that were tracked in
 //     fromTree but deleted in toTree. Because the diff is purely object-graph,
-//     untracked files never appear and are never deleted.
+//     untracked files never appear and are never deleted. A hard reset passes
+//     no fromTree but dropped, the entries the index had and toTree has not.
 //
 //  2. New-index-to-worktree diff: write files that are in the new index but
 //     absent or different on disk. For Delete actions (file on disk, but absent
@@ -765,13 +782,38 @@ func (w *Worktree) checkKeepResetConflicts(fromTree, toTree *object.Tree, sparse
 //     file with SkipWorktree=true must not exist in the worktree.
 //
 // files optionally restricts the operation to a specific subset of paths.
-func (w *Worktree) resetWorktreeToTree(cfg *config.Config, fromTree, toTree *object.Tree, files []string) error {
+func (w *Worktree) resetWorktreeToTree(cfg *config.Config, fromTree, toTree *object.Tree, dropped []*index.Entry, files []string) error {
 	filesMap := buildFilePathMap(files)
 
 	fs, closeFS := w.reusableRootFS()
 	defer closeFS()
 
-	// Step 1: delete files removed from the tracked tree.
+	// Step 1: delete files removed from the tracked tree, and the files of
+	// the entries that resetIndex dropped from the index (already filtered
+	// by files).
+	for _, e := range dropped {
+		// Only a gitlink stands for a directory. One that has taken the
+		// place of a tracked file holds nothing but untracked files: like
+		// git, leave it unless it is empty.
+		if e.Mode != filemode.Submodule {
+			fi, err := fs.Lstat(e.Name)
+			if err != nil && !os.IsNotExist(err) {
+				return err
+			}
+			if err == nil && fi.IsDir() {
+				entries, err := fs.ReadDir(e.Name)
+				if err != nil {
+					return err
+				}
+				if len(entries) > 0 {
+					continue
+				}
+			}
+		}
+		if err := rmFileAndDirsIfEmpty(fs, e.Name); err != nil {
+			return err
+		}
+	}
 	treeChanges, err := diffTrees(fromTree, toTree)
 	if err != nil {
 		return err
